@@ -169,7 +169,7 @@ OBSERVERS = '''
 '''
 
 
-def stylesheet(decls, with_decls):
+def stylesheet(decls, with_decls, via_document=False):
     main_decl = ''
     imp_decl = ''
     for kind, names, mod in decls:
@@ -183,10 +183,11 @@ def stylesheet(decls, with_decls):
     main = ('<xsl:stylesheet version="1.0" xmlns:xsl="%s" xmlns:p="u1" exclude-result-prefixes="p"><xsl:import href="imp.xsl"/>%s'
             '<xsl:key name="kt" match="text()" use="."/><xsl:key name="kp" match="node()" use="name(..)"/>'
             '<xsl:template match="/"><out>%s</out></xsl:template>'
+            '<xsl:template match="/" mode="b"><xsl:apply-templates mode="b"/></xsl:template>'
             '<xsl:template match="*" mode="b"><xsl:element name="{local-name()}"><xsl:apply-templates mode="b"/></xsl:element></xsl:template>'
             '<xsl:template match="*" mode="pos"><q n="{name()}"><xsl:apply-templates select="node()" mode="pos2"/></q></xsl:template>'
             '<xsl:template match="node()" mode="pos2"><i p="{position()}" l="{last()}"/></xsl:template>'
-            '</xsl:stylesheet>' % (XSL, main_decl, OBSERVERS))
+            '</xsl:stylesheet>' % (XSL, main_decl, ('<xsl:for-each select="document(\'d.xml\')">%s</xsl:for-each>' % OBSERVERS) if via_document else OBSERVERS))
     imp = '<xsl:stylesheet version="1.0" xmlns:xsl="%s" xmlns:p="u1">%s</xsl:stylesheet>' % (XSL, imp_decl)
     return main, imp
 
@@ -195,6 +196,7 @@ def shard_main(shard, nshards, tier):
     w = vlib.Worker('xdrv', stderr_path=os.path.join(vlib.BUILD, 'tmp', 'c13.%d.err' % shard))
     docs = gen_docs(tier)
     dsets = decl_sets(tier)
+    thorough = tier == 'thorough'
     counts = {'evaluations': 0, 'transformations': 0, 'nontrivial': 0, 'documents': 0}
     viols = []
     samples = []
@@ -225,6 +227,32 @@ def shard_main(shard, nshards, tier):
             if r1[0] != '0' or r2[0] != '0':
                 viols.append(('transform-error|%s' % decl_text(decls), {'xml': xml, 'r1': r1[:2], 'r2': r2[:2]}))
                 continue
+            if (thorough or si % 4 == 0) and r1[0] == '0' and r2[0] == '0' and r1[2] == r2[2]:
+                # the same comparison with the document loaded through document(): stripping applies to every source tree
+                dm, dimp = stylesheet(decls, True, True)
+                try:
+                    r3 = w.request('tr', dm, '<dummy/>', 'r:imp.xsl=' + dimp, 'r:d.xml=' + xml)
+                    kd = ('doc', sxml)
+                    if kd not in plain_cache:
+                        pm, pimp = stylesheet(decls, False, True)
+                        plain_cache[kd] = w.request('tr', pm, '<dummy/>', 'r:imp.xsl=' + pimp, 'r:d.xml=' + sxml)
+                        counts['transformations'] += 1
+                    r4 = plain_cache[kd]
+                    counts['transformations'] += 1
+                    counts['evaluations'] += 1
+                    if r3[0] != '0' or r4[0] != '0':
+                        viols.append(('document()|transform-error|%s' % decl_text(decls), {'xml': xml, 'r3': r3[:2], 'r4': r4[:2]}))
+                    elif r3[2] != r4[2]:
+                        o1 = R.parse_xml(r3[2]); o2 = R.parse_xml(r4[2])
+                        obs = '?'
+                        for a_, b_ in zip(o1.docel.children, o2.docel.children):
+                            if R.canon(a_) != R.canon(b_):
+                                obs = a_.local
+                                break
+                        viols.append(('document()|differs|%s|observer %s' % (decl_text(decls), obs),
+                                      {'xml': xml, 'stripped_xml': sxml, 'decls': decls, 'with_declarations': r3[2][:3000], 'physically_stripped': r4[2][:3000]}))
+                except vlib.WorkerDied as wd:
+                    viols.append(('document()|fatal|%s' % decl_text(decls), {'xml': xml, 'stderr': wd.stderr_tail[-1500:]}))
             if r1[2] != r2[2]:
                 # which observer differs first
                 o1 = R.parse_xml(r1[2]); o2 = R.parse_xml(r2[2])
@@ -269,7 +297,7 @@ def main():
                 'set): the output of a stylesheet with ~40 observers (child/descendant/sibling axes, position()/last(), count, string values, '
                 'keys, xsl:number, copy-of, built-in rules, sort, sum) with the declarations on the original document must be byte-identical '
                 'to the output of the same stylesheet without declarations on the document from which the harness removed the nodes. '
-                'Non-trivial = at least one node is actually stripped.',
+                'Non-trivial = at least one node is actually stripped. The same comparison is repeated with the document loaded through document() instead of being the main source (a quarter of the declaration sets in quick, all in thorough).',
         'samples': [x for r in res for x in r['samples']][:6] or ['none'],
         'documents': counts['documents'], 'transformations': counts['transformations'], 'declaration_sets': len(decl_sets(tier)),
         'exhaustive': True,
